@@ -78,3 +78,31 @@ Theorem c10_delivered_handlers_parameters_are_ready :
     ready_list w (delivered_to w it) loc.
 Proof. exact delivered_ready. Qed.
 Print Assumptions c10_delivered_handlers_parameters_are_ready.
+
+(* ---------- the sparse set behind every fetcher cache (src/sparse_map.rs, coq/SparseMap.v) ---------- *)
+Require Import EV.SparseMap.
+(* from the empty map, every sequence of fewer than 2^32-1 insertions (keys other than K::MAX) and removals runs
+   without reaching an unchecked operation's failure or a panic, keeps the invariant, and computes exactly the
+   finite map key -> value of the specification (last value inserted, nothing after a removal, other keys untouched) *)
+Theorem c10_sparse_map_is_a_finite_map :
+  forall (V : Type) (ops : list (@sp_op V)), Forall op_ok ops -> (N.of_nat (length ops) < U32MAX)%N ->
+    exists m', sp_run sp_empty ops = Val m' /\ SpInv m' /\ (forall k, sp_abs m' k = fold_left spec_step ops (fun _ => None) k).
+Proof. exact @sp_from_empty. Qed.
+Print Assumptions c10_sparse_map_is_a_finite_map.
+
+(* keys() lists every key of the map exactly once, values() is aligned with it (this order is the iteration order of
+   a Fetcher over its matching archetypes), get reads the map *)
+Theorem c10_sparse_map_keys_values_get :
+  forall (V : Type) (m : spm V), SpInv m ->
+    (NoDup (sp_keys m) /\ (forall k, In k (sp_keys m) <-> sp_abs m k <> None) /\
+     (forall i k, nget (sp_keys m) i = Some k -> nget (sp_values m) i = sp_abs m k) /\ length (sp_keys m) = length (sp_values m)) /\
+    (forall k, sp_get m k = Val (sp_abs m k)).
+Proof. exact @sp_keys_values_get. Qed.
+Print Assumptions c10_sparse_map_keys_values_get.
+
+(* swap-removal: the entry is gone, the displaced last entry is found at its new position, every other key keeps its value *)
+Theorem c10_sparse_map_remove :
+  forall (V : Type) (m : spm V) (k : N), SpInv m ->
+    exists m', sp_remove m k = Val (sp_abs m k, m') /\ SpInv m' /\ sp_abs m' k = None /\ (forall k', k' <> k -> sp_abs m' k' = sp_abs m k').
+Proof. exact @sp_remove_spec. Qed.
+Print Assumptions c10_sparse_map_remove.
